@@ -87,7 +87,7 @@ BUD = (600_000, 2_000_000, 0, 1_500_000, 2_000_000)
 
 def _mk(qual, file, setup, post, variant=None, raises=None, decode=None, notes=None, fn=None):
     sp = FunctionSpec(PROP, file, qual, {}, setup, post, raises=raises, theory=T, variant=variant, lemmas=lemmas(),
-                      decode=decode, interp=str_interp, budgets=BUD, notes=notes or [])
+                      decode=decode, interp=str_interp, budgets=BUD, notes=notes or [], ext=False)
     sp.fn_override = fn
     sp.fn_info = {'file': file, 'qualname': qual, 'sha': _sha(file, qual), 'loops': {}, 'dropped': []}
     return sp
